@@ -165,8 +165,11 @@ func init() {
 		"sort.SliceStable": sortSlice,
 
 		// ---- unsafe-ish helpers in the anchored code
-		"github.com/iotaledger/hive.go/constraints.IsInterfaceNil": isInterfaceNil,
-		"github.com/iotaledger/hive.go/lo.IsNil":                   nil, // filled below if needed
+		"github.com/iotaledger/hive.go/constraints.IsInterfaceNil":   isInterfaceNil,
+		"github.com/iotaledger/hive.go/runtime/event.IsInterfaceNil": isInterfaceNil,
+		"github.com/iotaledger/hive.go/stringify.IsInterfaceNil":     isInterfaceNil,
+		"github.com/iotaledger/hive.go/ds/reactive.isNil":            isInterfaceNil,
+		"github.com/iotaledger/hive.go/lo.IsNil":                     nil, // filled below if needed
 	}
 	delete(intrinsics, "github.com/iotaledger/hive.go/lo.IsNil")
 	registerAtomics()
@@ -548,6 +551,9 @@ func errorsAs(fr *frame, a []value) value {
 	return walk(err, 0)
 }
 
+// isInterfaceNil models the `(*[2]uintptr)(unsafe.Pointer(&param))[1] == 0` idiom: the data word of an
+// interface is zero exactly for a nil interface or a nil value of a pointer-shaped type (pointer, map, chan,
+// func); slices and other multi-word values are boxed, so their data word is never zero.
 func isInterfaceNil(fr *frame, a []value) value {
 	it := a[0].(iface)
 	if it.t == nil {
@@ -557,8 +563,6 @@ func isInterfaceNil(fr *frame, a []value) value {
 	case *value:
 		return v == nil
 	case *omap:
-		return v == nil
-	case []value:
 		return v == nil
 	case *channel:
 		return v == nil
